@@ -128,7 +128,6 @@ theorem balanced_upClosed_aux (t : Tree) : ∀ (h M n : Nat),
           rw [e2] at e
           have := Nat.eq_of_mul_eq_mul_left (Nat.two_pow_pos k) e
           omega
-        rw [ea] at hlo hhi
         by_cases hlt : 2 ^ k * (2 * m + 1) < 2 ^ (h + 1) * (2 * M + 1)
         · rw [← el] at hbl
           apply ih (2 * M) _ hbl k m hk' _ _ hu
